@@ -16,10 +16,21 @@ Binding      : (a) spec -> code: every edge of a complete 2-thread TLC state gra
                32-bit errno values; (a) and (b) yield event traces which TLC validates against
                the ideal (Trace_Errno.tla).  Verdicts come from the ideal; a step whose
                observation differs from the implementation model's prediction is a NOTE.
+Embedding    : the other way into an extern "Python" function - a C thread calls the dll-exported
+               function of an EMBEDDED module, and the first such call (or a call arriving from
+               another thread meanwhile) runs the interpreter start-up in between
+               (_embedding.h:_cffi_start_and_call_python: save errno, start, restore, forward) -
+               is an action of the ideal (EmbEnter: the thread's errno is untouched whatever
+               start-up runs) and three actions of the model (EmbCall/EmbStart/EmbForward, variant
+               emb_norestore must be rejected); harness/emb_errno.py builds a real embedded
+               module from the tree under test plus a multi-threaded C program, runs random
+               programs in fresh processes and the recorded traces go through the same TLC
+               validation (kind "embed").
 """
 import concurrent.futures, ctypes, json, os, subprocess, sys, threading, time
 from harness import core, tlaval
 from harness import thr_errno as T
+from harness import emb_errno as E
 
 LEVEL = "model_checking"
 # short TLC runs: few GC threads and the C1 compiler only (halves the CPU time of a JVM start)
@@ -27,7 +38,8 @@ JLIGHT = {"JAVA_TOOL_OPTIONS": "-XX:ParallelGCThreads=2 -XX:TieredStopAtLevel=1"
 JHEAVY = {"JAVA_TOOL_OPTIONS": "-XX:ParallelGCThreads=4"}
 
 ACTIONS = ("Set", "Get", "Clobber", "CallEnter", "CSet", "CallExit", "CbEnter", "CbExit")
-VARIANTS = ("shared", "cb_nosave", "get_consumes", "glob_bare", "cb_norestore")
+EMB_ACTIONS = ("EmbCall", "EmbStart", "EmbForward")
+VARIANTS = ("shared", "cb_nosave", "get_consumes", "glob_bare", "cb_norestore", "emb_norestore")
 INT_MIN, INT_MAX = -2 ** 31, 2 ** 31 - 1
 
 CLAUSE = {
@@ -44,11 +56,11 @@ def sset(xs):
 
 
 def cfg(threads, raw, vals, paths, kinds, maxlen, variant="faithful", props=("RefinesIdeal",),
-        spec="Spec", extra=""):
+        spec="Spec", extra="", emb=()):
     s = "SPECIFICATION %s\nCONSTANTS Threads = %s\n  Raw = %s\n  Vals = %s\n  Paths = %s\n  Kinds = %s\n" \
         "  MaxLen = %d\n  Variant = \"%s\"\n" % (spec, sset(threads), sset(raw), sset(vals), sset(paths),
                                                  sset(kinds), maxlen, variant)
-    s += extra
+    s += "  Emb = %s\n" % sset(emb) + extra
     if spec == "Spec":
         s += "INVARIANT TypeOK\n"
     for p in props:
@@ -464,7 +476,7 @@ def report(ctx, traces, metas, bad):
             for y in traces[k]["evs"][:pos - 1]:
                 if y["t"] != x["t"]:
                     continue
-                if y["ev"] in ("CallEnter", "CbEnter"):
+                if y["ev"] in ("CallEnter", "CbEnter", "EmbEnter"):
                     depth += 1
                 elif y["ev"] in ("CallExit", "CbExit"):
                     depth -= 1
@@ -473,11 +485,15 @@ def report(ctx, traces, metas, bad):
                 for y in traces[k]["evs"][:pos - 1]:
                     if y["t"] != x["t"]:
                         continue
-                    if y["ev"] in ("CallEnter", "CbEnter"):
+                    if y["ev"] in ("CallEnter", "CbEnter", "EmbEnter"):
                         stack.append(y["p"])
                     elif y["ev"] in ("CallExit", "CbExit"):
                         stack.pop()
                 site = stack[-1] if stack else ("raw" if x["t"] in traces[k]["raw"] else "top")
+        # inside a call into an embedded module: name how that call got to Python (emb1 | embw | emb)
+        emb = [y["p"] for y in traces[k]["evs"][:pos - 1] if y["t"] == x["t"] and y["ev"] == "EmbEnter"]
+        if emb and site != emb[-1] and metas[k]["kind"] == "embed":
+            site = "%s@%s" % (site, emb[-1])
         ctx.violation("%s:%s:%s" % (metas[k]["kind"], v, site), CLAUSE.get(v, v),
                       {"meta": metas[k], "trace": traces[k], "failing_event_index": pos, "failing_event": x})
 
@@ -495,8 +511,13 @@ def design_jobs(ctx):
         ("MC_Errno(2thr,1raw,vals2,api+glob,2kinds,len3)",
          cfg([1, 2], [2], [0, 1], ["api", "glob"], T.KINDS, 3, props=NI), "good"),
     ]
+    # C threads entering through the dll-exported function of an embedded module (start-up included)
+    jobs.append(("MC_Errno(2thr,both raw+emb,vals2,api,cbk,len3)",
+                 cfg([1, 2], [1, 2], [0, 1], ["api"], ["cbk"], 3, props=NI, emb=[1, 2]), "covemb"))
     if not ctx.quick:
         jobs += [
+            ("MC_Errno(3thr raw+emb,vals2,api,cbk,len3)",
+             cfg([1, 2, 3], [1, 2, 3], [0, 1], ["api"], ["cbk"], 3, props=NI, emb=[1, 2, 3]), "good"),
             ("MC_Errno(3thr,vals3,api+glob,cbk,len2)",
              cfg([1, 2, 3], [], [0, 1, 2], ["api", "glob"], ["cbk"], 2, props=NI), "good"),
             ("MC_Errno(2thr,vals2,4paths,2kinds,len3)", cfg([1, 2], [], [0, 1], T.PATHS, T.KINDS, 3), "good"),
@@ -504,17 +525,20 @@ def design_jobs(ctx):
     for v in VARIANTS:
         # the single shared saved errno must violate the thread-locality clause itself
         props = ("NonInterference",) if v == "shared" else ("RefinesIdeal",)
-        jobs.append(("sanity:" + v, cfg([1, 2], [], [0, 1], ["api", "glob"], ["cbk"], 2, variant=v, props=props),
-                     "bad"))
+        if v.startswith("emb"):
+            text = cfg([1, 2], [1, 2], [0, 1], ["api"], ["cbk"], 2, variant=v, props=props, emb=[1, 2])
+        else:
+            text = cfg([1, 2], [], [0, 1], ["api", "glob"], ["cbk"], 2, variant=v, props=props)
+        jobs.append(("sanity:" + v, text, "bad"))
     return jobs
 
 
 def account_design(ctx, name, kind, r):
-    if kind in ("good", "cov"):
+    if kind in ("good", "cov", "covemb"):
         ctx.add_tlc(name, r)
-        if kind == "cov":
+        if kind != "good":
             c = r.coverage()
-            missing = [a for a in ACTIONS if c.get(a, (0, 0))[1] == 0]
+            missing = [a for a in ACTIONS + (EMB_ACTIONS if kind == "covemb" else ()) if c.get(a, (0, 0))[1] == 0]
             if missing:
                 raise core.MachineryError("vacuous model: actions never taken: %r" % (missing,))
     else:
@@ -537,6 +561,28 @@ def sim_cfgs(ctx):
     if not ctx.quick:
         confs.append(([1, 2, 3, 4], []))
     return [(threads, raw, n, length, ctx.seed * 101 + i) for i, (threads, raw) in enumerate(confs)]
+
+
+def emb_plans(seed, n):
+    import random
+    r = random.Random("emb-%s" % seed)
+    return [E.gen_plan(r) for _ in range(n)]
+
+
+def account_embed(ctx, plans, res, traces, metas):
+    modes = {}
+    for i, (plan, (tr, md)) in enumerate(zip(plans, res)):
+        traces.append(tr)
+        metas.append({"kind": "embed", "plan": plan, "modes": md})
+        ctx.case(("embed", json.dumps(plan, sort_keys=True)))
+        for m in md.values():
+            modes[m] = modes.get(m, 0) + 1
+    if res:
+        ctx.cov["embedded_entry_calls_by_mode"] = modes
+        if not modes.get("emb1") or not modes.get("emb"):
+            raise core.MachineryError("embedded entry path: modes exercised %r" % (modes,))
+        ctx.sample({"kind": "C threads calling the exported function of a real embedded module in a fresh process",
+                    "plan": plans[-1], "modes": res[-1][1], "events": res[-1][0]["evs"][:30]}, limit=1)
 
 
 def printed_tuples(out, head):
@@ -568,7 +614,7 @@ def run(ctx):
     pool = concurrent.futures.ThreadPoolExecutor(6 if quick else 5)
     w = 2 if quick else 4
     djobs = design_jobs(ctx)
-    dfut = [pool.submit(core.tlc, "Errno", cfg_text=text, workers=(1 if kind == "bad" else w), coverage=(kind == "cov"),
+    dfut = [pool.submit(core.tlc, "Errno", cfg_text=text, workers=(1 if kind == "bad" else w), coverage=kind.startswith("cov"),
                         timeout=900 if quick else 3000, env=JLIGHT if (quick or kind == "bad") else JHEAVY) for name, text, kind in djobs]
     gconf = graph_cfg(quick)
     dump = os.path.join(ctx.tmp, "g_" + gconf[6])
@@ -581,6 +627,10 @@ def run(ctx):
                    extra="  N = %d\nCONSTRAINT Emit\n" % length)
         sfut.append(pool.submit(core.tlc, "ErrnoSim", cfg_text=text, workers=1, simulate="num=%d" % n,
                                 depth=length + 5, seed=seed, timeout=900, env=JLIGHT))
+    # ---- (c) the embedding entry path: fresh processes, runs while everything else works
+    eplans = emb_plans(ctx.seed, 14 if quick else 300)
+    epool = concurrent.futures.ThreadPoolExecutor(1)
+    efut = epool.submit(E.run_all, ctx.tmp, eplans, 3 if quick else 6)
     env = T.Env(ctx.tmp)
     traces, metas, divergences = [], [], []
 
@@ -649,6 +699,13 @@ def run(ctx):
         for m in res["metas"]:
             ctx.case(("nothread", m.get("seed") or json.dumps(m["steps"])))
         ctx.cov["nothread_build_traces"] = len(res["traces"])
+    # ---- (c) collected
+    eres, skipped = efut.result()
+    epool.shutdown()
+    if skipped:
+        print("NOTE C22: " + skipped)
+        ctx.assumptions.append(skipped)
+    account_embed(ctx, eplans, eres, traces, metas)
     # ---- verdicts
     bad = validate(ctx, traces)
     report(ctx, traces, metas, bad)
@@ -668,6 +725,9 @@ def run(ctx):
         "the C helper reads/assigns errno itself; ctypes plumbing (no use_errno) never touches cffi's saved errno",
         "glibc errno is per-thread; the harness's semaphore waits save/restore the errno value they track",
         "the errno of a thread before its first assignment/observation is left unconstrained by the ideal",
+        "embedded entry: the mode label of a call (emb1 = ran the start-up, embw = began before the init code "
+        "had finished, emb = later) is bound from observation (thread ident of the init code, CLOCK_MONOTONIC); "
+        "the ideal treats all modes alike",
     ]
 
 
@@ -728,8 +788,13 @@ def replay(ctx, obj):
     rp = obj["replay"]
     ctx.cov["states"] = ctx.cov["transitions"] = 1
     meta = rp["meta"]
-    env = T.Env(ctx.tmp)
-    if meta.get("steps"):
+    env = None if meta.get("kind") == "embed" else T.Env(ctx.tmp)
+    if meta.get("kind") == "embed":
+        res, skipped = E.run_all(ctx.tmp, [meta["plan"]], 1)
+        if skipped:
+            raise core.MachineryError(skipped)
+        tr = res[0][0]
+    elif meta.get("steps"):
         steps = [tuple(s) for s in meta["steps"]]
         real0 = {int(k): v for k, v in meta["real0"].items()}
         tr, div = lockstep_replay(env, ctx.rng, steps, meta["threads"], set(meta["raw"]), real0,
@@ -768,7 +833,23 @@ def selftest(ctx):
              ("Get", 2, None, 2)]
     tr2, div = lockstep_replay(env, ctx.rng, steps, [1, 2], set(), {1: 0, 2: 0}, {0: 0, 1: 71, 2: 72})
     ok3 = len(div) == 1 and "step 2" in div[0] and not validate(ctx, [tr2])
-    return ok1 and ok2 and ok3
+    # (3) the embedding entry path: a recorded run is accepted; the errno seen inside the first,
+    # initialising call (resp. by its C caller afterwards) flipped -> rejected at exactly that event
+    ok4 = True
+    res, skipped = E.run_all(ctx.tmp, emb_plans("selftest", 6), 3)
+    if not skipped:
+        etr = [tr for tr, _ in res]
+        ok4 = not validate(ctx, etr)
+        for tr in etr:
+            i = next(i for i, x in enumerate(tr["evs"]) if x["ev"] == "EmbEnter" and x["p"] == "emb1")
+            j = next(j for j in range(i + 1, len(tr["evs"])) if tr["evs"][j]["t"] == tr["evs"][i]["t"]
+                     and tr["evs"][j]["ev"] in ("Get", "CallEnter", "CbExit", "Set"))
+            if tr["evs"][j]["ev"] == "Set":
+                continue
+            tr["evs"][j]["v"] ^= 1
+            b = validate(ctx, [tr])
+            ok4 = ok4 and len(b) == 1 and b[0][2] == j + 1
+    return ok1 and ok2 and ok3 and ok4
 
 
 META = {
@@ -781,7 +862,12 @@ META = {
             "(violates NonInterference); every edge of a complete 2-thread TLC graph and simulated 2-4-thread "
             "behaviours (nested calls/callbacks, one thread not created by Python) are replayed in lock-step on "
             "real threads through all call paths, free-running threads run random nested programs with 32-bit "
-            "errno values, and TLC validates every recorded event trace against the property machine.",
+            "errno values, and TLC validates every recorded event trace against the property machine. The embedding "
+            "entry (a C thread calls the dll-exported function of an embedded module; the first call, and calls "
+            "racing with it, run the interpreter start-up between the C caller and the Python function: save "
+            "errno, start, restore, forward) is an action of both machines (variant without the restore rejected) "
+            "and is driven for real: an embedded module generated from the tree under test and a multi-threaded "
+            "C program run random programs in fresh processes, traces validated by TLC as the others.",
     "note": "Trusted: TLC, glibc's per-thread errno, ctypes (used only for harness plumbing). Lock-step replay "
             "serialises the threads, so it exercises which thread's storage is used, not data races inside "
             "save/restore (there are none to have: both are single TLS accesses). The errno of a thread before "
